@@ -54,6 +54,17 @@ def InstallsValid (fixed : Bool) : State → List Ev → Prop
   | _, [] => True
   | s, e :: rest => evOK s e ∧ InstallsValid fixed (applyEv fixed s e) rest
 
+instance (db : DB) (ts : List Tr) : Decidable (InstallOK db ts) := by unfold InstallOK; exact inferInstance
+
+instance (s : State) (e : Ev) : Decidable (evOK s e) := by
+  cases e <;> simp only [evOK] <;> exact inferInstance
+
+instance decInstallsValid (fixed : Bool) : (s : State) → (es : List Ev) → Decidable (InstallsValid fixed s es)
+  | _, [] => isTrue trivial
+  | s, e :: rest =>
+    have := decInstallsValid fixed (applyEv fixed s e) rest
+    by unfold InstallsValid; exact inferInstance
+
 structure Inv' (db : DB) (count : Int) (ws : Nat → Writer) : Prop where
   count_eq : count = db.length
   delta : ∀ i, (ws i).count - (ws i).count0 = net (ws i).pending
@@ -87,8 +98,9 @@ theorem net_lockTracked {ls ls' : List LockRec} {ts ts' : List Tr} (h : lockTrac
   split at h
   · simp at h
   · simp at h
-    rw [← h.2]
-    exact net_lockSet ts ls
+    have := net_lockSet ts ls
+    rw [h] at this
+    exact this
 
 /-- `delta_eq` at `Commit` -/
 theorem begin_inv {s : State} (h : Inv s) (i : Nat) (trs : List Tr) (adv : List (Nat × PAct)) (f : Fault) (ab : Bool)
@@ -97,14 +109,14 @@ theorem begin_inv {s : State} (h : Inv s) (i : Nat) (trs : List Tr) (adv : List 
   unfold Merge.begin
   simp only
   split
-  · exact inv_update h i _ (by simp) (by simpa using hf)
+  · exact inv_update h i _ (by simp; omega) (by simpa using hf)
   · split
-    · exact inv_update h i _ (by simp) (by simpa using hf)
+    · exact inv_update h i _ (by simp; omega) (by simpa using hf)
     · split
-      · exact inv_update h i _ (by simp) (by simpa using hf)
+      · exact inv_update h i _ (by simp; omega) (by simpa using hf)
       · rename_i ls trs' heq
         have := net_lockTracked heq
-        exact inv_update h i _ (by simp [this]) (by simpa using hf)
+        exact inv_update h i _ (by simp [this]; omega) (by simpa using hf)
 
 theorem finish_inv {s : State} {i : Nat} {w : Writer} {r : Res} (h : Inv' s.db s.count s.ws)
     (hd : w.count - w.count0 = net w.pending) (hf : w.fault ≠ .count) : Inv (finish s i w r) := by
@@ -158,9 +170,9 @@ theorem refetch_inv {fixed : Bool} {s : State} {i : Nat} {w : Writer} {adv : Lis
   · rename_i r hr
     simp only
     split
-    · exact finish_inv (s := { s with nextLock := r.nextLock }) h (by simp) (by simpa using hf)
+    · exact finish_inv (s := { s with nextLock := r.nextLock }) h (by simp; omega) (by simpa using hf)
     · unfold Inv State.setW
-      exact inv_update h i _ (by simp) (by simpa using hf)
+      exact inv_update h i _ (by simp; omega) (by simpa using hf)
 
 theorem step_inv {fixed : Bool} {s : State} (h : Inv s) (i : Nat) (adv : List (Nat × PAct))
     (hok : willInstall s i = true → InstallOK s.db (s.ws i).pending) : Inv (Merge.step fixed s i adv) := by
@@ -248,10 +260,27 @@ example : InstallsValid true (initial db0) hist := by decide
 example : ((runEv true (initial db0) hist).ws 0).pc = .done .ok ∧ ((runEv true (initial db0) hist).ws 0).passes = 2
     ∧ (runEv true (initial db0) hist).count = 3 ∧ (runEv true (initial db0) hist).db.length = 3 := by decide
 
-/-- the full-strength statement without the fault hypothesis -/
-def Statement_C06_any_fault : Prop :=
-  ∀ (db : DB) (es : List Ev), (∀ s e, e ∈ es → match e with | .begin .. => True | .step i _ => willInstall s i = true → InstallOK s.db (s.ws i).pending) →
-    (runEv true (initial db) es).count = ((runEv true (initial db) es).db.length : Int)
+/-- like `InstallsValid`, but any fault may be injected -/
+def InstallsValidAnyFault (fixed : Bool) : State → List Ev → Prop
+  | _, [] => True
+  | s, e :: rest =>
+    (match e with
+      | .begin .. => True
+      | .step i _ => willInstall s i = true → InstallOK s.db (s.ws i).pending) ∧
+    InstallsValidAnyFault fixed (applyEv fixed s e) rest
+
+instance decAnyFault (fixed : Bool) : (s : State) → (es : List Ev) → Decidable (InstallsValidAnyFault fixed s es)
+  | _, [] => isTrue trivial
+  | s, e :: rest =>
+    have := decAnyFault fixed (applyEv fixed s e) rest
+    by
+      unfold InstallsValidAnyFault
+      cases e <;> exact inferInstance
+
+/-- the full-strength statement: no restriction on the injected failures -/
+def Statement_C06 : Prop :=
+  ∀ (fixed : Bool) (db : DB) (es : List Ev), InstallsValidAnyFault fixed (initial db) es →
+    (runEv fixed (initial db) es).count = ((runEv fixed (initial db) es).db.length : Int)
 
 /-- `StoreRepository.Update` applies the delta and then reports an error: the commit fails, `rollback`
 (log still at `commitStoreInfo`) restores the nodes but not the count -/
@@ -260,6 +289,14 @@ def histCount : List Ev := [.begin 0 [addTr 1, addTr 2] [(1, .upd)] .count false
 theorem C06_counterexample_count_kept :
     ((runEv true (initial db0) histCount).ws 0).pc = .done .errInjected ∧
     (runEv true (initial db0) histCount).count = 4 ∧ (runEv true (initial db0) histCount).db.length = 2 := by decide
+
+/-- the full-strength statement is false for the code as it is (and the repair of the merge does not
+change that): the `count` fault is a history after which count ≠ number of items -/
+theorem C06_counterexample : ¬ Statement_C06 := by
+  intro h
+  have := h true db0 histCount (by decide)
+  revert this
+  decide
 
 /-- first-root race: the store ends with the winner's count and the loser's uncommitted item -/
 theorem C06_counterexample_first_root :
